@@ -172,41 +172,28 @@ Proof.
   intros m Hm'. vm_compute in Hm'. injection Hm' as <-. reflexivity.
 Qed.
 
-(* The library's function: every well-formed call loses the link-layer address. *)
-Definition known_C03_ns_option_type (tip slla : bytes) : bool :=
-  negb (NS_OPT_TYPE =? 1) && is16 tip && Nat.eqb (length slla) 6.
+(* the library's function (after repo commit 6b9f9d7 it writes option type 1) *)
+Theorem ns_rt tip slla :
+  length tip = 16%nat -> length slla = 6%nat -> bytes_ok tip -> bytes_ok slla ->
+  exists r,
+    ns_marshal tip slla = Ok r /\ len r = 32%nat /\ cap r = 32%nat /\
+    view r = ns_bytes 1 tip slla /\ bytes_ok (view r) /\
+    ns_decode_lib r = Ok {| sv_type := 135; sv_code := 0; sv_target := tip; sv_lla := Some slla |} /\
+    ref_nd (view r) = Some {| rn_type := 135; rn_code := 0; rn_flags := 0; rn_target := tip;
+                              rn_options := [(1, slla)] |} /\
+    (forall m, ref_nd (view r) = Some m -> ref_ns_slla m = Some slla).
+Proof. exact (ns_rt_ty1 tip slla). Qed.
 
-Theorem ns_rt_refuted :
-  exists tip slla, length tip = 16%nat /\ length slla = 6%nat /\ bytes_ok tip /\ bytes_ok slla /\
-    known_C03_ns_option_type tip slla = true /\
-    exists r, ns_marshal tip slla = Ok r /\
+(* the former defect (option type 2) as a statement about the parametrised marshal function:
+   with type 2 the address is lost by both decoders *)
+Lemma ns_type2_loses_lla :
+  exists tip slla r, ns_marshal_ty 2 tip slla = Ok r /\
       (v <- ns_decode_lib r ;; Ok (sv_lla v))%res = Ok None /\
       (match ref_nd (view r) with Some m => ref_ns_slla m | None => None end) = None.
 Proof.
   exists [254;128;0;0;0;0;0;0;0;0;0;0;0;0;0;1], [2;0;0;0;0;1].
-  repeat split; try (vm_compute; reflexivity);
-    try (unfold bytes_ok; repeat constructor; vm_compute; reflexivity).
   eexists. split. { vm_compute. reflexivity. } split; vm_compute; reflexivity.
 Qed.
-
-(* What does hold for the library's function: everything but the option type. *)
-Theorem ns_rt_partial tip slla :
-  length tip = 16%nat -> length slla = 6%nat -> bytes_ok tip -> bytes_ok slla ->
-  exists r,
-    ns_marshal tip slla = Ok r /\ len r = 32%nat /\
-    view r = ns_bytes NS_OPT_TYPE tip slla /\
-    (v <- ns_decode_lib r ;; Ok (sv_type v, sv_code v, sv_target v))%res = Ok (135, 0, tip) /\
-    ref_nd (view r) = Some {| rn_type := 135; rn_code := 0; rn_flags := 0; rn_target := tip;
-                              rn_options := [(NS_OPT_TYPE, slla)] |}.
-Proof.
-  intros Ht Hm Bt Bm.
-  eexists. split. { unfold ns_marshal. apply ns_marshal_ty_bytes; assumption. }
-  do 16 (destr_list tip Ht). destruct tip; [|discriminate].
-  do 6 (destr_list slla Hm). destruct slla; [|discriminate].
-  split. { reflexivity. } split. { reflexivity. }
-  split; vm_compute; reflexivity.
-Qed.
-
 (* ================================================================ *)
 (* IPv6 *)
 Lemma as16_length a : length (as16 a) = 16%nat.
